@@ -286,7 +286,7 @@ def run(ctx) -> None:
             run_case(ctx, {"n": n, "limit": l, "plus": p, "iterations": its, "kinds": kinds,
                            "history_seed": rng.randint(0, 2**31)})
         rounds += 1
-        if rounds >= 1 and not quick and rounds > 40:
+        if rounds > 400:
             break
 
 
